@@ -1,8 +1,744 @@
 import Grass.Proto
-/- Core `Value` — stub; replaced by the model (see DESIGN.md §8). -/
+/-
+  C09 core — SassScript values, `==`, `not_equals`, maps as insertion-ordered association lists.
+
+  Mirrors (file:line of /repo at the time of writing)
+    crates/compiler/src/value/mod.rs:48      `impl PartialEq for Value`
+    crates/compiler/src/value/mod.rs:388     `Value::not_equals`   (only caller: `SassMap::remove`)
+    crates/compiler/src/value/map.rs         `SassMap` (eq :13, get :42, remove :62, merge :66, contains :84, insert :96)
+    crates/compiler/src/value/sass_number.rs:245  `impl PartialEq for SassNumber`
+    crates/compiler/src/value/number.rs:40   `fuzzy_equals`, :158 `Number::convert`
+    crates/compiler/src/unit/mod.rs:165      `comparable`, :178 `canonical`, :190 `kind`
+    crates/compiler/src/unit/conversion.rs   `UNIT_CONVERSION_TABLE`
+    crates/compiler/src/color/mod.rs:45      `impl PartialEq for Color`, :96 `impl PartialEq for Rgb`
+    crates/compiler/src/value/arglist.rs:16  `impl PartialEq for ArgList`
+    crates/compiler/src/evaluate/visitor.rs:2779  `visit_map` (duplicate keys in a map literal)
+    crates/compiler/src/builtin/functions/list.rs:231  `index`
+
+  Numbers: a finite double is modelled by its exact rational value; `±Infinity` and `NaN` are
+  separate constructors.  Unit conversion multiplies by the exact CSS ratio (the f64 rounding of
+  the table entries and of the product is outside the model; the correspondence universe stays
+  away from bucket boundaries by more than that noise, except for the deliberately chosen
+  boundary witnesses, whose distance from the boundary is ≥ 1e-13 relative).
+  `π` is the double `std::f64::consts::PI`.
+  Complex units (`px*px`, `px/s`), calculations and function references are not modelled; the
+  driver answers `unsupported` for them.
+-/
 namespace Grass.Value
 
+/-! ### units -/
+
+inductive Sep where
+  | comma | space | slash | undecided
+  deriving DecidableEq, Repr, Inhabited
+
+/-- `unit/mod.rs:9` `enum Unit` without `Complex`. -/
+inductive U where
+  | px | mm | inch | cm | q | pt | pc
+  | em | rem | lh | ex | ch | cap | ic | rlh
+  | vw | vh | vmin | vmax | vi | vb
+  | deg | grad | rad | turn
+  | s | ms
+  | hz | khz
+  | dpi | dpcm | dppx
+  | fr | percent
+  | unknown (name : List Char)
+  | none
+  deriving DecidableEq, Repr, Inhabited
+
+inductive Kind where
+  | absolute | fontRel | viewRel | angle | time | freq | res | other | none
+  deriving DecidableEq, Repr, Inhabited
+
+/-- `Unit::kind` (unit/mod.rs:190). -/
+def U.kind : U → Kind
+  | .px | .mm | .inch | .cm | .q | .pt | .pc => .absolute
+  | .em | .rem | .lh | .ex | .ch | .cap | .ic | .rlh => .fontRel
+  | .vw | .vh | .vmin | .vmax | .vi | .vb => .viewRel
+  | .deg | .grad | .rad | .turn => .angle
+  | .s | .ms => .time
+  | .hz | .khz => .freq
+  | .dpi | .dpcm | .dppx => .res
+  | .none => .none
+  | .fr | .percent | .unknown _ => .other
+
+/-- `Unit::comparable` (unit/mod.rs:165). -/
+def comparable (u1 u2 : U) : Bool :=
+  if u2 = .none then true else
+  match u1.kind with
+  | .fontRel | .viewRel | .other => decide (u1 = u2)
+  | .none => true
+  | k => decide (u2.kind = k)
+
+/-- `Unit::canonical` (unit/mod.rs:178). -/
+def U.canonical (u : U) : Option U :=
+  match u.kind with
+  | .absolute => some .px
+  | .angle => some .deg
+  | .time => some .s
+  | .freq => some .hz
+  | .res => some .dppx
+  | _ => Option.none
+
+/-- The double `std::f64::consts::PI`, exactly. -/
+def piF64 : Rat := (884279719003555 : Rat) / 281474976710656
+
+/-- Factor that turns a number of unit `u` into the canonical unit of its kind
+    (`UNIT_CONVERSION_TABLE[canonical][u]`, conversion.rs); `1` for canonical and
+    non-convertible units. -/
+def U.toCanon : U → Rat
+  | .inch => 96
+  | .cm => (9600 : Rat) / 254
+  | .pc => 16
+  | .mm => (960 : Rat) / 254
+  | .q => (960 : Rat) / 1016
+  | .pt => (4 : Rat) / 3
+  | .grad => (9 : Rat) / 10
+  | .rad => 180 / piF64
+  | .turn => 360
+  | .ms => (1 : Rat) / 1000
+  | .khz => 1000
+  | .dpi => (1 : Rat) / 96
+  | .dpcm => (254 : Rat) / 9600
+  | _ => 1
+
+/-- `UNIT_CONVERSION_TABLE[to][from]` for two units of one convertible kind. -/
+def factor (frm to : U) : Rat := frm.toCanon / to.toCanon
+
+/-! ### numbers -/
+
+inductive Num where
+  | fin (q : Rat) | nan | pinf | ninf
+  deriving DecidableEq, Repr, Inhabited
+
+/-- multiplication by a positive conversion factor -/
+def Num.scale (n : Num) (f : Rat) : Num :=
+  match n with
+  | .fin q => .fin (q * f)
+  | n => n
+
+def Num.isNaN : Num → Bool
+  | .nan => true
+  | _ => false
+
+/-- `f64::round`: half away from zero. -/
+def roundHalfAway (x : Rat) : Int :=
+  if 0 ≤ x then (x + 1 / 2).floor else -((-x + 1 / 2).floor)
+
+def epsilon : Rat := (1 : Rat) / 100000000000
+def inverseEpsilon : Rat := 100000000000
+
+/-- `fuzzy_equals` (number.rs:40) on finite values:
+    `a == b || ((a - b).abs() <= epsilon() && (a * inverse_epsilon()).round() == (b * inverse_epsilon()).round())`. -/
+def fuzzyEq (a b : Rat) : Bool :=
+  decide (a = b) ||
+    (decide ((a - b).abs ≤ epsilon) &&
+      decide (roundHalfAway (a * inverseEpsilon) = roundHalfAway (b * inverseEpsilon)))
+
+/-- `fuzzy_equals` on doubles including the non-finite ones: `inf == inf`, `NaN` equals nothing,
+    `|inf - x| <= eps` is false. -/
+def fuzzyN : Num → Num → Bool
+  | .fin a, .fin b => fuzzyEq a b
+  | .pinf, .pinf => true
+  | .ninf, .ninf => true
+  | _, _ => false
+
+/-- `Number::convert` (number.rs:158). -/
+def conv (n : Num) (frm to : U) : Num :=
+  if frm = .none ∨ to = .none ∨ frm = to then n else n.scale (factor frm to)
+
+/-- Switches, one per known deviation.  `now` is /repo as it stands, `spec` is what the
+    property demands, `pinned` is the tree as first found. -/
+structure Sw where
+  /-- D6 (fixed): the `List == ArgList` arm exists (`value/mod.rs:76`). -/
+  argSym : Bool
+  /-- D20 (fixed): numbers of *different* convertible units are compared in the canonical unit
+      of their kind (`sass_number.rs:255`); `false` = right operand converted into the left unit. -/
+  canon : Bool
+  /-- K1 (open): numbers of the *same* convertible unit are also compared in the canonical unit. -/
+  canonSame : Bool
+  /-- K2/K3 (open): an argument list is compared as the unbracketed comma list of its
+      positional elements (keywords and the hidden separator ignored). -/
+  argAsList : Bool
+  /-- K4 (open): `SassMap::remove` drops the keys that are `==` to the probe
+      (`false` = it keeps the keys for which `not_equals` holds, `map.rs:63`). -/
+  removeEq : Bool
+  deriving DecidableEq, Repr, Inhabited
+
+def Sw.now : Sw := ⟨true, true, false, false, false⟩
+def Sw.spec : Sw := ⟨true, true, true, true, true⟩
+def Sw.pinned : Sw := ⟨false, false, false, false, false⟩
+
+/-- `impl PartialEq for SassNumber` (sass_number.rs:245). -/
+def numEq (sw : Sw) (n1 : Num) (u1 : U) (n2 : Num) (u2 : U) : Bool :=
+  if !comparable u1 u2 then false
+  else if (u2 = .none ∨ u1 = .none) ∧ u1 ≠ u2 then false
+  else
+    match (if sw.canon then u1.canonical else none) with
+    | some c =>
+      if u1 ≠ u2 ∨ sw.canonSame = true then fuzzyN (conv n1 u1 c) (conv n2 u2 c)
+      else fuzzyN n1 (conv n2 u2 u1)
+    | none => fuzzyN n1 (conv n2 u2 u1)
+
+/-- The number arm of `Value::not_equals` (mod.rs:394–415); still converts right into left. -/
+def numNotEquals (sw : Sw) (n1 : Num) (u1 : U) (n2 : Num) (u2 : U) : Bool :=
+  if n1.isNaN || n2.isNaN then !(numEq sw n1 u1 n2 u2)
+  else if !comparable u1 u2 then true
+  else if u1 = u2 then !(fuzzyN n1 n2)
+  else if u1 = .none ∨ u2 = .none then true
+  else !(fuzzyN n1 (conv n2 u2 u1))
+
+/-! ### colours (`color/mod.rs:45`, `:96`) -/
+
+def chanEq (lim x y : Rat) : Bool := fuzzyEq x y || (decide (lim ≤ x) && decide (lim ≤ y))
+
+def colorEq (r1 g1 b1 a1 r2 g2 b2 a2 : Rat) : Bool :=
+  if !(chanEq 1 a1 a2) then false
+  else chanEq 255 r1 r2 && chanEq 255 g1 g2 && chanEq 255 b1 b2
+
+/-! ### values -/
+
+mutual
+  inductive Value where
+    | null
+    | bool (b : Bool)
+    | num (n : Num) (u : U)
+    | str (s : List Char) (quoted : Bool)
+    | color (r g b a : Rat)
+    | list (es : VList) (sep : Sep) (bracketed : Bool)
+    | map (ps : VPairs)
+    /-- positional elements, keywords (keys are unquoted strings, in `BTreeMap` order), hidden separator -/
+    | arglist (es : VList) (kw : VPairs) (sep : Sep)
+  inductive VList where
+    | nil
+    | cons (v : Value) (t : VList)
+  inductive VPairs where
+    | nil
+    | cons (k v : Value) (t : VPairs)
+end
+
+instance : Inhabited Value := ⟨.null⟩
+instance : Inhabited VList := ⟨.nil⟩
+instance : Inhabited VPairs := ⟨.nil⟩
+
+def VList.toList : VList → List Value
+  | .nil => []
+  | .cons v t => v :: t.toList
+
+def VList.ofList : List Value → VList
+  | [] => .nil
+  | v :: t => .cons v (VList.ofList t)
+
+def VPairs.toList : VPairs → List (Value × Value)
+  | .nil => []
+  | .cons k v t => (k, v) :: t.toList
+
+def VPairs.ofList : List (Value × Value) → VPairs
+  | [] => .nil
+  | (k, v) :: t => .cons k v (VPairs.ofList t)
+
+def VList.length : VList → Nat
+  | .nil => 0
+  | .cons _ t => t.length + 1
+
+def VPairs.length : VPairs → Nat
+  | .nil => 0
+  | .cons _ _ t => t.length + 1
+
+/-- `iter().any(|(k2, v2)| f k2 v2)` -/
+def VPairs.any (f : Value → Value → Bool) : VPairs → Bool
+  | .nil => false
+  | .cons k v t => f k v || t.any f
+
+mutual
+  /-- `Value::eq` (value/mod.rs:49).  In the `List == ArgList` arm the code evaluates
+      `other == self`, i.e. compares each pair as (arglist element, list element); the model
+      compares (list element, arglist element) — indistinguishable whenever element equality is
+      symmetric (theorem `C09_veq_symm`). -/
+  def veq (sw : Sw) : Value → Value → Bool
+    | .null, .null => true
+    | .bool a, .bool b => a == b
+    | .num n1 u1, .num n2 u2 => numEq sw n1 u1 n2 u2
+    | .str s1 _, .str s2 _ => decide (s1 = s2)
+    | .color r1 g1 b1 a1, .color r2 g2 b2 a2 => colorEq r1 g1 b1 a1 r2 g2 b2 a2
+    | .list l1 s1 b1, .list l2 s2 b2 => decide (s1 = s2) && decide (b1 = b2) && veqL sw l1 l2
+    | .list l1 s1 b1, .arglist l2 _ _ =>
+      if sw.argAsList then decide (s1 = .comma) && decide (b1 = false) && veqL sw l1 l2
+      else sw.argSym && decide (s1 = .comma) && veqL sw l1 l2
+    | .arglist l1 _ _, .list l2 s2 b2 =>
+      if sw.argAsList then decide (s2 = .comma) && decide (b2 = false) && veqL sw l1 l2
+      else decide (s2 = .comma) && veqL sw l1 l2
+    | .arglist l1 k1 s1, .arglist l2 k2 s2 =>
+      if sw.argAsList then veqL sw l1 l2
+      else veqL sw l1 l2 && veqKw sw k1 k2 && decide (s1 = s2)
+    | .map p1, .map p2 => decide (p1.length = p2.length) && subP sw p1 p2
+    | _, _ => false
+  /-- `Vec<Value> == Vec<Value>`: same length, pairwise equal. -/
+  def veqL (sw : Sw) : VList → VList → Bool
+    | .nil, .nil => true
+    | .cons a t, .cons b u => veq sw a b && veqL sw t u
+    | _, _ => false
+  /-- `BTreeMap<Identifier, Value> == …`: same keys in order, pairwise equal values. -/
+  def veqKw (sw : Sw) : VPairs → VPairs → Bool
+    | .nil, .nil => true
+    | .cons k1 v1 t, .cons k2 v2 u => veq sw k1 k2 && veq sw v1 v2 && veqKw sw t u
+    | _, _ => false
+  /-- `SassMap::eq` loop (map.rs:18): every entry of the left map has an equal entry in the right. -/
+  def subP (sw : Sw) : VPairs → VPairs → Bool
+    | .nil, _ => true
+    | .cons k v t, q => q.any (fun k2 v2 => veq sw k k2 && veq sw v v2) && subP sw t q
+end
+
+mutual
+  /-- `Value::not_equals` (value/mod.rs:388). -/
+  def notEquals (sw : Sw) : Value → Value → Bool
+    | .str s1 _, .str s2 _ => decide (s1 ≠ s2)
+    | .str _ _, _ => true
+    | .num n1 u1, .num n2 u2 => numNotEquals sw n1 u1 n2 u2
+    | .list l1 s1 b1, .list l2 s2 b2 =>
+      if s1 ≠ s2 ∨ b1 ≠ b2 ∨ l1.length ≠ l2.length then true else notEqualsL sw l1 l2
+    | .list _ _ _, _ => true
+    | a, b => !(veq sw a b)
+  /-- `for (a, b) in zip { if a.not_equals(b) { return true } } false` -/
+  def notEqualsL (sw : Sw) : VList → VList → Bool
+    | .cons a t, .cons b u => notEquals sw a b || notEqualsL sw t u
+    | _, _ => false
+end
+
+/-! ### `SassMap` (value/map.rs): an insertion-ordered association list searched with `==` -/
+
+/-- `SassMap::get` / `get_ref` (map.rs:42, :52): first entry whose key `== key`. -/
+def get (sw : Sw) : VPairs → Value → Option Value
+  | .nil, _ => none
+  | .cons k v t, key => if veq sw k key then some v else get sw t key
+
+/-- `SassMap::contains` (map.rs:84). -/
+def contains (sw : Sw) (m : VPairs) (key : Value) : Bool := m.any (fun k _ => veq sw k key)
+
+/-- `SassMap::insert` (map.rs:96): overwrite the value of the first entry whose key `== key`
+    (the stored key is kept), else push. -/
+def insert (sw : Sw) : VPairs → Value → Value → VPairs
+  | .nil, key, val => .cons key val .nil
+  | .cons k v t, key, val => if veq sw k key then .cons k val t else .cons k v (insert sw t key val)
+
+/-- `SassMap::merge` (map.rs:66). -/
+def merge (sw : Sw) (a : VPairs) : VPairs → VPairs
+  | .nil => a
+  | .cons k v t => merge sw (insert sw a k v) t
+
+/-- the predicate `SassMap::remove` retains by (map.rs:63) -/
+def keeps (sw : Sw) (k key : Value) : Bool :=
+  if sw.removeEq then !(veq sw k key) else notEquals sw k key
+
+/-- `SassMap::remove` (map.rs:62). -/
+def remove (sw : Sw) : VPairs → Value → VPairs
+  | .nil, _ => .nil
+  | .cons k v t, key => if keeps sw k key then .cons k v (remove sw t key) else remove sw t key
+
+def keys : VPairs → VList
+  | .nil => .nil
+  | .cons k _ t => .cons k (keys t)
+
+def values : VPairs → VList
+  | .nil => .nil
+  | .cons _ v t => .cons v (values t)
+
+/-- `visit_map` (visitor.rs:2779): `none` = "Duplicate key." -/
+def literalFrom (sw : Sw) (acc : VPairs) : List (Value × Value) → Option VPairs
+  | [] => some acc
+  | (k, v) :: rest =>
+    match get sw acc k with
+    | some _ => none
+    | none => literalFrom sw (insert sw acc k v) rest
+
+def literal (sw : Sw) (es : List (Value × Value)) : Option VPairs := literalFrom sw .nil es
+
+/-- `SassMap::as_list` (map.rs:88). -/
+def pairsAsList : VPairs → VList
+  | .nil => .nil
+  | .cons k v t => .cons (.list (.cons k (.cons v .nil)) .space false) (pairsAsList t)
+
+/-- `Value::as_list` (value/mod.rs:435). -/
+def asList : Value → VList
+  | .list es _ _ => es
+  | .map ps => pairsAsList ps
+  | .arglist es _ _ => es
+  | v => .cons v .nil
+
+/-- position (0-based) of the first `true` -/
+def firstTrue : List Bool → Option Nat
+  | [] => none
+  | b :: t => if b then some 0 else (firstTrue t).map (· + 1)
+
+/-- `index` (builtin/functions/list.rs:231): 0-based position of the first element `== v`. -/
+def indexOf (sw : Sw) : VList → Value → Option Nat
+  | .nil, _ => none
+  | .cons e t, v => if veq sw e v then some 0 else (indexOf sw t v).map (· + 1)
+
+/-! ### guards -/
+
+mutual
+  /-- no `NaN` anywhere inside -/
+  def noNaN : Value → Bool
+    | .num n _ => !n.isNaN
+    | .list es _ _ => noNaNL es
+    | .map ps => noNaNP ps
+    | .arglist es kw _ => noNaNL es && noNaNP kw
+    | _ => true
+  def noNaNL : VList → Bool
+    | .nil => true
+    | .cons v t => noNaN v && noNaNL t
+  def noNaNP : VPairs → Bool
+    | .nil => true
+    | .cons k v t => noNaN k && noNaN v && noNaNP t
+end
+
+mutual
+  /-- no argument list anywhere inside -/
+  def noArgList : Value → Bool
+    | .arglist _ _ _ => false
+    | .list es _ _ => noArgListL es
+    | .map ps => noArgListP ps
+    | _ => true
+  def noArgListL : VList → Bool
+    | .nil => true
+    | .cons v t => noArgList v && noArgListL t
+  def noArgListP : VPairs → Bool
+    | .nil => true
+    | .cons k v t => noArgList k && noArgList v && noArgListP t
+end
+
+/-- the unit is not convertible, or is the canonical unit of its kind -/
+def U.isCanon (u : U) : Bool :=
+  match u.canonical with
+  | Option.none => true
+  | some c => decide (u = c)
+
+mutual
+  /-- every number inside carries a non-convertible or canonical unit -/
+  def unitsCanon : Value → Bool
+    | .num _ u => u.isCanon
+    | .list es _ _ => unitsCanonL es
+    | .map ps => unitsCanonP ps
+    | .arglist es kw _ => unitsCanonL es && unitsCanonP kw
+    | _ => true
+  def unitsCanonL : VList → Bool
+    | .nil => true
+    | .cons v t => unitsCanon v && unitsCanonL t
+  def unitsCanonP : VPairs → Bool
+    | .nil => true
+    | .cons k v t => unitsCanon k && unitsCanon v && unitsCanonP t
+end
+
+mutual
+  /-- colour channels within `[..255]`, alpha within `[..1]` (what the constructors clamp to) -/
+  def inRange : Value → Bool
+    | .color r g b a => decide (r ≤ 255) && decide (g ≤ 255) && decide (b ≤ 255) && decide (a ≤ 1)
+    | .list es _ _ => inRangeL es
+    | .map ps => inRangeP ps
+    | .arglist es kw _ => inRangeL es && inRangeP kw
+    | _ => true
+  def inRangeL : VList → Bool
+    | .nil => true
+    | .cons v t => inRange v && inRangeL t
+  def inRangeP : VPairs → Bool
+    | .nil => true
+    | .cons k v t => inRange k && inRange v && inRangeP t
+end
+
+/-- keys pairwise not `==` -/
+def distinctKeys (sw : Sw) : VPairs → Bool
+  | .nil => true
+  | .cons k _ t => !(t.any (fun k2 _ => veq sw k k2)) && distinctKeys sw t
+
+mutual
+  /-- every map inside has pairwise non-`==` keys -/
+  def mapWf (sw : Sw) : Value → Bool
+    | .list es _ _ => mapWfL sw es
+    | .map ps => distinctKeys sw ps && mapWfP sw ps
+    | .arglist es kw _ => mapWfL sw es && mapWfP sw kw
+    | _ => true
+  def mapWfL (sw : Sw) : VList → Bool
+    | .nil => true
+    | .cons v t => mapWf sw v && mapWfL sw t
+  def mapWfP (sw : Sw) : VPairs → Bool
+    | .nil => true
+    | .cons k v t => mapWf sw k && mapWf sw v && mapWfP sw t
+end
+
+/-- The values for which the variant `sw` is claimed to behave as the property demands:
+    everything for `Sw.spec`; for the code as it stands, values without argument lists (K2/K3)
+    whose convertible numbers carry the canonical unit (K1). -/
+def inScope (sw : Sw) (v : Value) : Bool :=
+  (sw.argAsList || noArgList v) && (sw.canonSame || unitsCanon v)
+
+/-! ### the per-input property predicates evaluated on an implementation's own answers -/
+
+def matGet (m : List (List Bool)) (i j : Nat) : Bool := ((m.getD i []).getD j false)
+
+/-- first `i` with `¬ m i i` among the indices listed in `dom` -/
+def lawRefl (m : List (List Bool)) (dom : List Nat) : Option Nat :=
+  dom.find? (fun i => !matGet m i i)
+
+def lawSymm (m : List (List Bool)) (n : Nat) : Option (Nat × Nat) :=
+  ((List.range n).flatMap fun i => (List.range n).map fun j => (i, j)).find?
+    (fun p => matGet m p.1 p.2 != matGet m p.2 p.1)
+
+def lawTrans (m : List (List Bool)) (n : Nat) : Option (Nat × Nat × Nat) :=
+  ((List.range n).flatMap fun i => (List.range n).flatMap fun j =>
+      if matGet m i j then (List.range n).filterMap fun k =>
+        if matGet m j k && !matGet m i k then some (i, j, k) else none
+      else []).head?
+
+/-! ### driver: value encoding
+
+  prefix tokens:  `N` | `T` | `F` | `n <rat> <unit>` | `s <0|1> <hex>` | `c <rat> <rat> <rat> <rat>`
+                | `l <sep> <0|1> <k> v*k` | `m <k> (key val)*k` | `a <sep> <k> v*k <j> (key val)*j`
+  rat = `nan` | `inf` | `-inf` | `p` | `p/q`;  unit = `-` | name | `u:<hex>`;  sep = `comma|space|slash|undecided`
+-/
+open Grass.Proto
+
+def parseRat? (s : String) : Option Rat :=
+  match s.splitOn "/" with
+  | [p] => p.toInt?.map (fun (i : Int) => (i : Rat))
+  | [p, q] =>
+    match p.toInt?, q.toNat? with
+    | some p, some q => if q = 0 then none else some ((p : Rat) / (q : Rat))
+    | _, _ => none
+  | _ => none
+
+def parseNum? (s : String) : Option Num :=
+  if s == "nan" then some .nan else if s == "inf" then some .pinf else if s == "-inf" then some .ninf
+  else (parseRat? s).map .fin
+
+def unitNames : List (String × U) :=
+  [("px", .px), ("mm", .mm), ("in", .inch), ("cm", .cm), ("q", .q), ("pt", .pt), ("pc", .pc),
+   ("em", .em), ("rem", .rem), ("lh", .lh), ("ex", .ex), ("ch", .ch), ("cap", .cap), ("ic", .ic),
+   ("rlh", .rlh), ("vw", .vw), ("vh", .vh), ("vmin", .vmin), ("vmax", .vmax), ("vi", .vi), ("vb", .vb),
+   ("deg", .deg), ("grad", .grad), ("rad", .rad), ("turn", .turn), ("s", .s), ("ms", .ms),
+   ("hz", .hz), ("khz", .khz), ("dpi", .dpi), ("dpcm", .dpcm), ("dppx", .dppx), ("fr", .fr),
+   ("%", .percent), ("-", .none)]
+
+def parseUnit? (s : String) : Option U :=
+  if s.startsWith "u:" then (hexDecode (s.drop 2).toString).map (fun n => .unknown n.toList)
+  else (unitNames.find? (·.1 == s)).map (·.2)
+
+def unitStr (u : U) : String :=
+  match u with
+  | .unknown n => "u:" ++ hexEncode (String.ofList n)
+  | u => ((unitNames.find? (·.2 == u)).map (·.1)).getD "?"
+
+def parseSep? (s : String) : Option Sep :=
+  if s == "comma" then some .comma else if s == "space" then some .space
+  else if s == "slash" then some .slash else if s == "undecided" then some .undecided else none
+
+def sepStr : Sep → String
+  | .comma => "comma" | .space => "space" | .slash => "slash" | .undecided => "undecided"
+
+mutual
+  def parseV (fuel : Nat) (ts : List String) : Option (Value × List String) :=
+    match fuel with
+    | 0 => none
+    | fuel + 1 =>
+      match ts with
+      | "N" :: r => some (.null, r)
+      | "T" :: r => some (.bool true, r)
+      | "F" :: r => some (.bool false, r)
+      | "n" :: x :: u :: r =>
+        match parseNum? x, parseUnit? u with
+        | some x, some u => some (.num x u, r)
+        | _, _ => none
+      | "s" :: q :: h :: r =>
+        match parseBool? q, hexDecode h with
+        | some q, some s => some (.str s.toList q, r)
+        | _, _ => none
+      | "c" :: a :: b :: c :: d :: r =>
+        match parseRat? a, parseRat? b, parseRat? c, parseRat? d with
+        | some a, some b, some c, some d => some (.color a b c d, r)
+        | _, _, _, _ => none
+      | "l" :: sp :: br :: k :: r =>
+        match parseSep? sp, parseBool? br, k.toNat? with
+        | some sp, some br, some k =>
+          match parseVs fuel k r with
+          | some (es, r) => some (.list es sp br, r)
+          | none => none
+        | _, _, _ => none
+      | "m" :: k :: r =>
+        match k.toNat? with
+        | some k =>
+          match parsePs fuel k r with
+          | some (ps, r) => some (.map ps, r)
+          | none => none
+        | none => none
+      | "a" :: sp :: k :: r =>
+        match parseSep? sp, k.toNat? with
+        | some sp, some k =>
+          match parseVs fuel k r with
+          | some (es, j :: r) =>
+            match j.toNat? with
+            | some j =>
+              match parsePs fuel j r with
+              | some (kw, r) => some (.arglist es kw sp, r)
+              | none => none
+            | none => none
+          | _ => none
+        | _, _ => none
+      | _ => none
+  def parseVs (fuel : Nat) (k : Nat) (ts : List String) : Option (VList × List String) :=
+    match fuel with
+    | 0 => none
+    | fuel + 1 =>
+      match k with
+      | 0 => some (.nil, ts)
+      | k + 1 =>
+        match parseV fuel ts with
+        | some (v, r) =>
+          match parseVs fuel k r with
+          | some (vs, r) => some (.cons v vs, r)
+          | none => none
+        | none => none
+  def parsePs (fuel : Nat) (k : Nat) (ts : List String) : Option (VPairs × List String) :=
+    match fuel with
+    | 0 => none
+    | fuel + 1 =>
+      match k with
+      | 0 => some (.nil, ts)
+      | k + 1 =>
+        match parseV fuel ts with
+        | some (key, r) =>
+          match parseV fuel r with
+          | some (v, r) =>
+            match parsePs fuel k r with
+            | some (ps, r) => some (.cons key v ps, r)
+            | none => none
+          | none => none
+        | none => none
+end
+
+/-- parse `k` values from a token list, requiring that nothing is left over -/
+def parseValues (k : Nat) (ts : List String) : Option (List Value) :=
+  match parseVs (2 * ts.length + k + 2) k ts with
+  | some (vs, []) => some vs.toList
+  | _ => none
+
+def ratStr (q : Rat) : String := if q.den = 1 then toString q.num else s!"{q.num}/{q.den}"
+
+def numStr : Num → String
+  | .fin q => ratStr q | .nan => "nan" | .pinf => "inf" | .ninf => "-inf"
+
+mutual
+  def encV : Value → String
+    | .null => "N"
+    | .bool true => "T"
+    | .bool false => "F"
+    | .num n u => s!"n {numStr n} {unitStr u}"
+    | .str s q => s!"s {boolStr q} {hexEncode (String.ofList s)}"
+    | .color r g b a => s!"c {ratStr r} {ratStr g} {ratStr b} {ratStr a}"
+    | .list es sp br => s!"l {sepStr sp} {boolStr br} {es.length}{encVs es}"
+    | .map ps => s!"m {ps.length}{encPs ps}"
+    | .arglist es kw sp => s!"a {sepStr sp} {es.length}{encVs es} {kw.length}{encPs kw}"
+  def encVs : VList → String
+    | .nil => ""
+    | .cons v t => " " ++ encV v ++ encVs t
+  def encPs : VPairs → String
+    | .nil => ""
+    | .cons k v t => " " ++ encV k ++ " " ++ encV v ++ encPs t
+end
+
+def parseSw? (s : String) : Option Sw :=
+  if s == "now" then some .now else if s == "spec" then some .spec
+  else if s == "pinned" then some .pinned else none
+
+def optNatStr : Option Nat → String
+  | none => "none" | some n => toString n
+
+def parseBits (s : String) : List Bool := s.toList.map (· == '1')
+
+/-- rows separated by `.` -/
+def parseMatrix (s : String) : List (List Bool) := (s.splitOn ".").map parseBits
+
+/-- one map operation of a sequence: `set k v` | `merge m` | `remove k` -/
+inductive MapOp where
+  | set (k v : Value) | merge (m : VPairs) | remove (k : Value)
+
+def runOp (sw : Sw) (m : VPairs) : MapOp → VPairs
+  | .set k v => insert sw m k v
+  | .merge o => merge sw m o
+  | .remove k => remove sw m k
+
+def parseOps (fuel : Nat) (ts : List String) : Option (List MapOp) :=
+  match fuel with
+  | 0 => none
+  | fuel + 1 =>
+    match ts with
+    | [] => some []
+    | "set" :: r =>
+      match parseVs (2 * r.length + 4) 2 r with
+      | some (.cons k (.cons v .nil), r) => (parseOps fuel r).map (MapOp.set k v :: ·)
+      | _ => none
+    | "merge" :: r =>
+      match parseV (2 * r.length + 4) r with
+      | some (.map o, r) => (parseOps fuel r).map (MapOp.merge o :: ·)
+      | _ => none
+    | "remove" :: r =>
+      match parseV (2 * r.length + 4) r with
+      | some (k, r) => (parseOps fuel r).map (MapOp.remove k :: ·)
+      | none => none
+    | _ => none
+
+def guardsStr (sw : Sw) (v : Value) : String :=
+  boolStr (noNaN v) ++ boolStr (mapWf sw v) ++ boolStr (inRange v) ++ boolStr (inScope sw v)
+
 def handle : List String → String
+  -- eq <sw> A B  →  ok <A==B> <B==A> <notEquals A B> <guards A> <guards B>
+  | "eq" :: sw :: r =>
+    match parseSw? sw, parseValues 2 r with
+    | some sw, some [a, b] =>
+      s!"ok {boolStr (veq sw a b)} {boolStr (veq sw b a)} {boolStr (notEquals sw a b)} {guardsStr sw a} {guardsStr sw b}"
+    | _, _ => "bad-op"
+  -- pair <sw> A B  →  what the map built from the literal `(A: 1)` does when probed / extended with B
+  --   ok <get:0|1> <has> <removed:0|1> <merge-len> <literal-dup:0|1> <index in (A,)>
+  | "pair" :: sw :: r =>
+    match parseSw? sw, parseValues 2 r with
+    | some sw, some [a, b] =>
+      let m := VPairs.cons a (.num (.fin 1) .none) .nil
+      let lit := literal sw [(a, .num (.fin 1) .none), (b, .num (.fin 2) .none)]
+      s!"ok {boolStr (get sw m b).isSome} {boolStr (contains sw m b)} {boolStr ((remove sw m b).length == 0)} {(merge sw m (.cons b (.num (.fin 2) .none) .nil)).length} {boolStr lit.isNone} {optNatStr (indexOf sw (.cons a .nil) b)}"
+    | _, _ => "bad-op"
+  -- index <sw> <k> L1 … Lk V → ok <0-based position | none>
+  | "index" :: sw :: k :: r =>
+    match parseSw? sw, k.toNat? with
+    | some sw, some k =>
+      match parseValues (k + 1) r with
+      | some vs => "ok " ++ optNatStr (indexOf sw (VList.ofList (vs.take k)) (vs.getD k .null))
+      | none => "bad-op"
+    | _, _ => "bad-op"
+  -- ops <sw> M op…  → ok <resulting map>
+  | "ops" :: sw :: r =>
+    match parseSw? sw, parseV (2 * r.length + 4) r with
+    | some sw, some (.map m, r) =>
+      match parseOps (r.length + 2) r with
+      | some ops => "ok " ++ encV (.map (ops.foldl (runOp sw) m))
+      | none => "bad-op"
+    | _, _ => "bad-op"
+  -- mapwf <sw> V → ok <0|1>
+  | "mapwf" :: sw :: r =>
+    match parseSw? sw, parseValues 1 r with
+    | some sw, some [v] => "ok " ++ boolStr (mapWf sw v)
+    | _, _ => "bad-op"
+  -- laws <n> <matrix> <refl-domain bits>: P̂ of the equivalence laws on an implementation's `==` matrix
+  | ["laws", n, mat, dom] =>
+    match n.toNat? with
+    | some n =>
+      let m := parseMatrix mat
+      let d := (List.range n).filter (fun i => (parseBits dom).getD i false)
+      let r := match lawRefl m d with | none => "refl:ok" | some i => s!"refl:{i}"
+      let s := match lawSymm m n with | none => "symm:ok" | some (i, j) => s!"symm:{i},{j}"
+      let t := match lawTrans m n with | none => "trans:ok" | some (i, j, k) => s!"trans:{i},{j},{k}"
+      s!"ok {r} {s} {t}"
+    | none => "bad-op"
+  -- first <bits> → ok <position of the first 1 | none>   (P̂ of `index`/`map-get` against a row of `==` answers)
+  | ["first", bits] => "ok " ++ optNatStr (firstTrue (parseBits bits))
   | _ => "bad-op"
 
 end Grass.Value
